@@ -40,6 +40,8 @@ FIXED = [
     ("reduce_obj", 'o9$(0){|acc, kv| acc * 10 + kv[1]}.p'),
     ("tally", '[3, 1, 3, 2, 1, 3].tally.p'),
     ("arr_of_objs", '[{b: t(1), a: t(2)}, %{2: t(3), 1: t(4)}].p'),
+    ("case_keys", '{m: "metre", M: "mega", g: "gram", G: "giga"}.p; %{"id": 1, "ID": 2, "Id": 3}.p; {m: 1, M: 2, mm: 3, Mm: 4, mM: 5}.keys.p; {Ab: 1, aB: 2, ab: 3, AB: 4}.S.p'),
+    ("float_keys_print", '%{1.0: "one", 1.0000001: "more", 2: "two"}.p; %{0.0000001: 1, 0.0000002: 2}.S.p'),
     ("iter_advance", 'it := <{|i| yield i if i < 9; recur(i + 1)}>.new(1); [it.next, it.next, it.next] .p'),
 ]
 
@@ -138,6 +140,10 @@ def gen(chk):
             cases.append(('"before".p\nr := ' + body + '\n"after".p\n', L(ms), "shortcut"))
     cases.append(('it0 := [10, 20, 30]._iter\nr := [it0.next || 0, it0.next && 1, it0.next]\nr.p\n', "[10, 1, 30]\n", "shortcut"))
     cases.append(('a := tz(1)\na ||= t(2)\na ||= t(3)\na &&= t(4)\na.p\n', "1\n2\n4\n4\n", "shortcut"))
+    # a literal / variable call evaluates the receiver before the function literal (whose keyword defaults are evaluated with it)
+    for body, ms in [("t(1).{|x, k: t(2)| [x, k]}", [1, 2]), ("[t(1)]@{|x, k: t(2)| [x, k]}", [1, 2]), ("t(1)&.{|x, k: t(2)| x}", [1, 2]),
+                     ("t(1)~.{|x, k: t(2)| x}", [1, 2]), ("t(1).{|x, k: t(2), j: t(3)| [x, k, j]}", [1, 2, 3])]:
+        cases.append(('"before".p\nr := ' + body + '\n"after".p\n', L(ms), "literal-call-order"))
     # the parts of an embedded str are converted one by one, also when two parts are the SAME object (its S may print or advance)
     cases.append(('o := {S: m{t(7).S}}\n"before".p\nr := "#{o}-#{o}"\n"after".p\nr.p\n', "before\n7\n7\nafter\n7-7\n", "embstr-same-object"))
     cases.append(('c := [1, 2, 3]._iter\nq := {S: m{c.next.S}}\nr := "#{q}#{q}#{q}"\nr.p\n', "123\n", "embstr-same-object"))
@@ -175,6 +181,21 @@ def main(chk):
         others.append(reps[-(p + 1):] + reps[:-(p + 1)])
     viol, model_only, fam = [], [], {}
     runs = 0
+    # standard input is read where the program says so, a line at a time: an outer `<>` chain and reads inside its block alternate
+    sin = "config\nhost\nlocalhost\nport\n80\n"
+    scases = [('header := <>.S\nheader.p\n<>@{|key| "#{key}=#{<>.S}"}.p\n<>.S.repr.p\n', 'config\n["host=localhost", "port=80"]\n""\n'),
+              ('it := <>._iter\n[it.next, <>.S, it.next, <>.S].p\n[<>.A.len].p\n', '["config", "host", "localhost", "port"]\n[1]\n'),
+              ('[<>.S, <>.S].p\n<>@{|l| l.uc}.p\n', '["config", "host"]\n["LOCALHOST", "PORT", "80"]\n')]
+    sres = pancore.run_programs(chk, [c[0] for c in scases], cmp_msg=True, repeat=R, stdin=sin, tag="C08in")
+    for (prog, exp), r in zip(scases, sres):
+        chk.count(("stdin", prog), True)
+        imp = r["impl"]
+        if imp.get("nondet") or not (imp["kind"] == "value" and imp.get("out") == exp):
+            viol.append(("standard input is not read line by line where the program reads it: expected %r, got %r" % (exp, imp.get("out")),
+                         {"program": prog, "stdin": sin, "expected_out": exp, "impl": {k: imp.get(k) for k in ("kind", "repr", "errk", "errmsg", "out", "nondet")}},
+                         "C08:stdin-order"))
+        elif r["verdict"] == "disagree":
+            model_only.append(r)
     for i, ((prog, exp, family), r) in enumerate(zip(cases, res)):
         fam[family.split("/")[0]] = fam.get(family.split("/")[0], 0) + 1
         chk.count(prog, True)
